@@ -43,6 +43,7 @@ CONSTANTS
   Counts,      \* counts of populated input buckets
   Thresholds,  \* zero thresholds of inputs, in units; ZT0 (= -1000) is "exactly 0"
   ZeroCounts,  \* zero counts of inputs
+  BZeroCounts, \* the same for the library of second operands
   Bounds,      \* custom bound ids 1..k (symbolic, increasing)
   Kinds,       \* subset of {"exp","cb"}
   Types,       \* subset of {"float","int"}
@@ -258,11 +259,11 @@ Mk(ty, k, s, zt, zc, cv, p, n) ==
 \* input buckets must end above the histogram's own zero threshold
 OkIdx(S, s, zt) == {i \in S : Bound(i, s) > zt}
 
-ExpLib(Ty, PI, NI, kp, kn) ==
+ExpLib(Ty, ZC, PI, NI, kp, kn) ==
   IF "exp" \notin Kinds THEN {} ELSE
   UNION {UNION {UNION {UNION { {Mk(ty, "exp", s, zt, zc, {}, p, n) :
                                    p \in Sides(OkIdx(PI, s, zt), kp), n \in Sides(OkIdx(NI, s, zt), kn)}
-                               : zc \in ZeroCounts}
+                               : zc \in ZC}
                         : zt \in Thresholds}
                  : s \in Schemas}
          : ty \in Ty}
@@ -273,8 +274,8 @@ CBLib(Ty, kp) ==
                  : cv \in SUBSET Bounds}
          : ty \in Ty}
 
-LibA == ExpLib(Types, PIdx, NIdx, MaxP, MaxN) \cup CBLib(Types, MaxP)
-LibB == ExpLib(BTypes, BPIdx, BNIdx, BMaxP, BMaxN) \cup CBLib(BTypes, BMaxP)
+LibA == ExpLib(Types, ZeroCounts, PIdx, NIdx, MaxP, MaxN) \cup CBLib(Types, MaxP)
+LibB == ExpLib(BTypes, BZeroCounts, BPIdx, BNIdx, BMaxP, BMaxN) \cup CBLib(BTypes, BMaxP)
 
 -----------------------------------------------------------------------------
 (* Behaviour records *)
@@ -306,14 +307,14 @@ Obs(a, b) ==
       wRed |-> IF a.k = "exp" THEN {<<t, J(ReduceRef(a, t))>> : t \in {u \in Schemas : u < a.s}} ELSE {}]
 
 \* ld = registers the harness has to (re)build from the carried state before checking the predictions
-Step(name, ld, args, a, b) == [a |-> name, ld |-> ld] @@ args @@ ObsLite(a, b)
-Full(name, ld, a, b) == [a |-> name, ld |-> ld] @@ Obs(a, b)
+Step(name, ld, args, a, b) == [op |-> name, ld |-> ld] @@ args @@ ObsLite(a, b)
+Full(name, ld, a, b) == [op |-> name, ld |-> ld] @@ Obs(a, b)
 \* construction steps carry the register under construction only (no predictions yet)
-Light(name, ld, h) == [a |-> name, ld |-> ld, R |-> J(h)]
+Light(name, ld, h) == [op |-> name, ld |-> ld, R |-> J(h)]
 
 \* the first record only describes the index/schema frame; in "empty" mode the registers are trivial,
 \* in "lib" mode the pair is complete (and rebuilt by the harness) after PickB
-InitRec(a, b) == [a |-> "Init", ld |-> "", smin |-> SMax - 3, smax |-> SMax, cbinf |-> CBInf]
+InitRec(a, b) == [op |-> "Init", ld |-> "", smin |-> SMax - 3, smax |-> SMax, cbinf |-> CBInf]
 
 Init ==
   /\ IF InitMode = "lib"
@@ -345,8 +346,10 @@ PutFull(name, ld, a, b) ==
 PickB == \E h \in LibB : PutFull("PickB", "AB", A, h)
 
 \* construction steps: the harness (re)builds the target register from the carried state
+\* (the second operand gets the bucket type of the first: mixed types only yield the error path,
+\* which the library configurations cover)
 New ==
-  \E ty \in Types, k \in Kinds :
+  \E ty \in Types, k \in (IF Target = "B" THEN {A.k} ELSE Kinds) :
     \/ /\ k = "exp"
        /\ \E s \in Schemas, zt \in Thresholds, zc \in ZeroCounts :
             Build("New", Empty(ty, "exp", s, zt, zc, {}))
@@ -367,7 +370,7 @@ Observe ==
 
 \* no call: the full predictions for the current pair.  Taken after the construction and after every operation.
 Check == PutFull("Check", "", A, B)
-CheckDue == InitMode = "empty" /\ hist[Len(hist)].a # "Check"
+CheckDue == InitMode = "empty" /\ hist[Len(hist)].op # "Check"
 
 BothFloat == A.ty = "float" /\ B.ty = "float"
 
@@ -384,10 +387,11 @@ Arith(name, sg) ==
 Reduce ==
   /\ "Reduce" \in Ops
   /\ \/ A.k = "exp" /\ \E t \in Schemas : ReduceOK(A, t) /\ Put("Reduce", "", [t |-> t, err |-> FALSE], ReduceRef(A, t), B)
-     \/ A.k = "cb" /\ \E t \in Schemas : Put("Reduce", "", [t |-> t, err |-> TRUE], A, B)
+     \/ A.k = "cb" /\ Put("Reduce", "", [t |-> SMax - 1, err |-> TRUE], A, B)
 
 \* A.Compact(m)
-Compact == "Compact" \in Ops /\ \E m \in {0, 1, 3} : Put("Compact", "", [m |-> m], CompactRef(A), B)
+\* (maxEmptyBuckets cycles with the step number: one successor, so that random walks do not mostly compact)
+Compact == "Compact" \in Ops /\ Put("Compact", "", [m |-> nops % 4], CompactRef(A), B)
 
 \* A := A.ToFloat(nil)
 ToFloat == "ToFloat" \in Ops /\ A.ty = "int" /\ Put("ToFloat", "", [z |-> 0], ToFloatRef(A), B)
